@@ -242,6 +242,34 @@ pub struct World {
     pub ghost addr_in_use: bool,                 // another process holds the lock address right now                      // number of mutating application entry points entered
 }
 pub open spec fn flat(b: Seq<Vec<u8>>) -> Seq<u8> decreases b.len() { if b.len() == 0 { Seq::empty() } else { flat(b.drop_last()) + b.last()@ } }
+// C08: byte conservation in process_reader - what the encoder got (beyond s0) ++ what waits for the next flush ++ the line buffer is
+// exactly what was consumed from the stream, and consumed ++ rest is the stream.  Opaque: used through the lemmas below only.
+#[verifier::opaque] pub open spec fn conserved(sink: Seq<u8>, pending: Seq<u8>, buf: Seq<u8>, s0: Seq<u8>, consumed: Seq<u8>, rest: Seq<u8>, stream: Seq<u8>) -> bool {
+    sink + pending + buf =~= s0 + consumed && consumed + rest =~= stream
+}
+pub proof fn lemma_flat_empty(b: Seq<Vec<u8>>) requires b.len() == 0 ensures flat(b) == Seq::<u8>::empty() { }
+pub proof fn lemma_cons_init(s0: Seq<u8>, stream: Seq<u8>) ensures conserved(s0, Seq::<u8>::empty(), Seq::<u8>::empty(), s0, Seq::<u8>::empty(), stream, stream) { reveal(conserved); }
+// a read (completed or dropped) moved a chunk from the rest of the stream into the line buffer
+pub proof fn lemma_cons_read(k: Seq<u8>, p: Seq<u8>, b0: Seq<u8>, b1: Seq<u8>, s0: Seq<u8>, c0: Seq<u8>, c1: Seq<u8>, r0: Seq<u8>, r1: Seq<u8>, stream: Seq<u8>)
+    requires conserved(k, p, b0, s0, c0, r0, stream), b1 == b0 + read_chunk(b0, b1), c1 == c0 + read_chunk(b0, b1), r0 == read_chunk(b0, b1) + r1,
+    ensures conserved(k, p, b1, s0, c1, r1, stream),
+{ reveal(conserved); let ch = read_chunk(b0, b1); assert(k + p + (b0 + ch) =~= (k + p + b0) + ch); assert((c0 + ch) + r1 =~= c0 + (ch + r1)); }
+// the line buffer was moved to the end of the pending buffers (mem::take leaves it empty)
+pub proof fn lemma_cons_push(k: Seq<u8>, ob: Seq<Vec<u8>>, x: Vec<u8>, nb: Seq<Vec<u8>>, newbuf: Seq<u8>, s0: Seq<u8>, c: Seq<u8>, r: Seq<u8>, stream: Seq<u8>)
+    requires conserved(k, flat(ob), x@, s0, c, r, stream), nb =~= ob.push(x), newbuf.len() == 0,
+    ensures conserved(k, flat(nb), newbuf, s0, c, r, stream),
+{ reveal(conserved); lemma_flat_push(ob, x); assert(nb == ob.push(x)); assert(k + (flat(ob) + x@) + newbuf =~= k + flat(ob) + x@); }
+pub proof fn lemma_cons_stream(k: Seq<u8>, p: Seq<u8>, b: Seq<u8>, s0: Seq<u8>, c: Seq<u8>, r: Seq<u8>, stream: Seq<u8>) requires conserved(k, p, b, s0, c, r, stream) ensures c + r =~= stream { reveal(conserved); }
+// a flush handed the pending bytes to the encoder
+pub proof fn lemma_cons_flush(k: Seq<u8>, p: Seq<u8>, b: Seq<u8>, s0: Seq<u8>, c: Seq<u8>, r: Seq<u8>, stream: Seq<u8>)
+    requires conserved(k, p, b, s0, c, r, stream),
+    ensures conserved(k + p, Seq::<u8>::empty(), b, s0, c, r, stream),
+{ reveal(conserved); assert((k + p) + Seq::<u8>::empty() + b =~= k + p + b); }
+// at the end of the stream, after the last flush, with an empty line buffer: the encoder got s0 ++ stream
+pub proof fn lemma_cons_done(k: Seq<u8>, p: Seq<u8>, b: Seq<u8>, s0: Seq<u8>, c: Seq<u8>, r: Seq<u8>, stream: Seq<u8>)
+    requires conserved(k, p, b, s0, c, r, stream), r.len() == 0, b.len() == 0,
+    ensures k + p == s0 + stream,
+{ reveal(conserved); assert(c =~= stream); assert(k + p =~= k + p + b); }
 // C20: every buffer is a complete line (ends with a newline)
 #[verifier::opaque] pub open spec fn all_lines(b: Seq<Vec<u8>>) -> bool { forall|i: int| 0 <= i < b.len() ==> (#[trigger] b[i])@.len() > 0 && b[i]@.last() == 10u8 }
 pub open spec fn nl_terminated(s: Seq<u8>) -> bool { s.len() == 0 || s.last() == 10u8 }
